@@ -185,6 +185,18 @@ func loadDependencyOutputsIfNeeded(ctx context.Context, logger *console.Logger, 
 	if err := executor.LoadDependencyOutputs(ctx, runTarget, func(_ worker.StatusUpdate) {}); err != nil {
 		logger.Fatalf("could not load dependencies: %v", err)
 	}
+
+	// The run target itself may have been a cache hit, too: in minimal mode that leaves its
+	// binary output unrestored, but it is about to be executed
+	if !runTarget.OutputsLoaded {
+		targetResult, err := targetCache.Load(ctx, runTarget.ChangeHash)
+		if err != nil {
+			logger.Fatalf("could not load the cached result of %s: %v", runTarget.Label, err)
+		}
+		if err := registry.LoadOutputs(ctx, runTarget, targetResult, nil); err != nil {
+			logger.Fatalf("could not load the outputs of %s: %v", runTarget.Label, err)
+		}
+	}
 }
 
 func splitRunArgs(args []string, argsLenAtDash int) ([]string, []string, error) {
